@@ -163,7 +163,7 @@ class AbstractForce(ModelObject):
             return self._velocity
         if name == "variables":
             return self.variables
-        raise V.PyRaise("AttributeError", (name,))
+        raise V.Unsupported(f"forcing.{name}: not part of the forcing interface the tracker contract models")
 
     @property
     def _velocity(self):
